@@ -8,12 +8,13 @@ VARIABLE l
 
 Failing(ev) ==
   IF ev.k = "list"
-  THEN LET want == Listing(ev.keys, ev.prefixGiven, ev.prefixKey)
+  THEN LET want == IF ev.sfx = "upper" THEN ListingUpper(ev.keys, ev.prefixGiven, ev.prefixKey)
+                   ELSE Listing(ev.keys, ev.prefixGiven, ev.prefixKey)
        IN IF ev.raised = "~" /\ ev.result = [i \in DOMAIN want |-> want[i].n] THEN <<>> ELSE <<"s3_listing">>
   ELSE IF SourcesAgree(ev.outcomes) THEN <<>> ELSE <<"sources_same">>
 
 RECURSIVE KeyStr(_)
-KeyStr(ks) == IF ks = <<>> THEN "" ELSE (IF Head(ks).under THEN "u" ELSE "-") \o (IF Head(ks).suf = "end" THEN "s" ELSE IF Head(ks).suf = "mid" THEN "m" ELSE "-")
+KeyStr(ks) == IF ks = <<>> THEN "" ELSE (IF Head(ks).under THEN "u" ELSE "-") \o (IF Head(ks).suf = "end" THEN "s" ELSE IF Head(ks).suf = "mid" THEN "m" ELSE IF Head(ks).suf = "upper" THEN "U" ELSE "-")
                                     \o (IF Len(ks) > 1 THEN "," ELSE "") \o KeyStr(Tail(ks))
 Sig(ev) == IF ev.k = "list" THEN "list[" \o (IF Len(ev.keys) > 9 THEN "big" \o ToString(Len(ev.keys)) ELSE KeyStr(ev.keys)) \o "]/prefix=" \o (IF ev.prefixKey # 0 THEN "key" \o ToString(ev.prefixKey) ELSE ToString(ev.prefixGiven)) \o "/page=" \o ToString(ev.size) \o "/" \o ev.how
            ELSE "load/" \o ev.what
